@@ -367,6 +367,7 @@ def run(ck, F, tier):
     ck.rule("Z1", "field classification: which fields are written anywhere under decode")
     ck.rule("Z2", "no per-call field is read in decode (or a callee) before this call has fully rewritten it, on any path incl. zero iterations")
     ck.rule("Z3", "arithmetic scratch vectors: read only over the prefix written earlier in the same call")
+    ck.rule("Z5", "the message stores are completely rewritten in every iteration: each check rule of every arithmetic emits exactly one message per neighbour, addressed to it (C04-K1, run here; a neighbour left out keeps the previous frame's message)")
     ck.rule("Z4", "holders call only LdpcDecoder::decode on the stored decoder")
     ck.trust("idiom table of full overwrites (5 entries) and the equal-length premise asserted at the top of decode")
     ck.trust("premise from C03-F2 / C04-K1: stores are built from the matrix adjacency and every arithmetic emits one message per neighbour")
@@ -466,6 +467,11 @@ def run(ck, F, tier):
                 ck.inst("Z4", "holder-use:%s#%d" % (b.path.rsplit("::", 1)[-1], n4), ok, n["sp"],
                         "%s uses its stored decoder %s" % (b.path, "only as receiver of LdpcDecoder::decode" if ok else "in another way"))
     ck.floor("Z4", "uses of a stored Box<dyn LdpcDecoder>", n4, 2)
+
+    # Z5: completeness of the per-iteration rewrite of the message stores rests on the arithmetics' emission discipline
+    from ..report import RuleAlias
+    from . import c04
+    c04.run(RuleAlias(ck, "Z5", only=lambda r_, k_: r_ == "K1"), F, "quick", only=("K1",))
 
 
 def handed_to_decode_only(F, body, node, depth=0):
@@ -578,3 +584,4 @@ def scratch_discipline(body, field):
         return False, "; ".join(problems[:3])
     return bool(order), "%s: %d whole-prefix write loop(s) precede %d zip-read loop(s) over the same message slice; only len()/resize() otherwise" % (
         field, len([o for o in order if o[0] == "w"]), len([o for o in order if o[0] == "r"]))
+
